@@ -691,7 +691,7 @@ def boolean_glue(H):
 
 
 # ------------------------------------------------------------------------------------------------ the final gate
-@obligation(("C01", "C17"), "gate.checkpicosvg", functions=["svg.SVG.checkpicosvg"])
+@obligation(("C01", "C17", "C08"), "gate.checkpicosvg", functions=["svg.SVG.checkpicosvg"])
 def gate_check(H):
     """checkpicosvg on <svg><defs><linearGradient><stop/></linearGradient><mask/></defs><g opacity><path/><path/><image/>
     <g><path/><text/></g></g><path id=dup/><path id=dup/><text/></svg>: every element that is not defs / gradient / stop / g / path
